@@ -79,10 +79,10 @@ def step (st : St) (toks : List String) : St × String :=
     | some (c, v, rest) => ({ st with ddod := c, ddodBuf := rest }, wordToHex v)
   | ["cx", "f64"] =>
     let (c, r, v) := st.df64.decodeR st.df64r
-    ({ st with df64 := c, df64r := r }, s!"{wordToHex v} eof={if r.eof then 1 else 0}")
+    ({ st with df64 := c, df64r := r }, s!"{wordToHex v} eof={if r.err then 1 else 0}")
   | ["cx", "bool"] =>
     let (r, v) := boolDecodeR st.dboolr
-    ({ st with dboolr := r }, s!"{if v then 1 else 0} eof={if r.eof then 1 else 0}")
+    ({ st with dboolr := r }, s!"{if v then 1 else 0} eof={if r.err then 1 else 0}")
   | ["cx", "str"] =>
     match strDecode st.dstrBuf2 with
     | .error e => (st, showErr e)
